@@ -406,3 +406,13 @@ Example C07_example_abort_all_late_waiter :
   let cf := ab_run 0 (fun _ => true) (fun t => if Nat.eqb t 1 then 1 else 0) (repeat (0, false) 2 ++ repeat (1, false) 4) in
   ab_stuck 0 (fun _ => true) cf /\ apc (snd cf 0) = ADone /\ blocked (aag (fst cf) 1) = true /\ apc (snd cf 1) = QSusp /\ aq (fst cf) = [1].
 Proof. exact ab_example_late_waiter. Qed.
+
+(* "the wait ended with the abort exception exactly once", for plain OS threads (no spurious return, no wake-up token: every
+   suspension blocks and is ended by an abort() whose reason is there when the suspension ends): at every moment the exceptions
+   seen plus the suspensions still ahead ([remaining]) add up to the waits of the thread; a finished OS waiter saw exactly one
+   exception per wait.  With C07_abort_all_stuck_all_done: stuck, abort_all returned, queue_ empty => thrown t = waits t. *)
+Theorem C07_abort_all_os_waiter_throws_every_wait : forall a isos waits sched t, t <> a -> isos t = true ->
+  let cf := ab_run a isos waits sched in
+  thrown (fst cf) t + remaining (snd cf t) = waits t /\ (apc (snd cf t) = QDone -> thrown (fst cf) t = waits t).
+Proof. exact os_waiter_throws_every_wait. Qed.
+Print Assumptions C07_abort_all_os_waiter_throws_every_wait.
